@@ -215,7 +215,14 @@ def precise_diff(
             #
             # We also need to adjust if we do not
             # have variable-length units
-            if not in_same_tz or total_days == 0:
+            # (the two wall clock times are less than a day apart)
+            if (
+                not in_same_tz
+                or total_days == 0
+                or total_days == 1
+                and (d2.hour, d2.minute, d2.second, d2.microsecond)
+                < (d1.hour, d1.minute, d1.second, d1.microsecond)
+            ):
                 offset1 = d1.utcoffset()
                 offset2 = d2.utcoffset()
 
